@@ -79,19 +79,68 @@ def _big_stack():
         pass
 
 
+STALL_IMPL = float(os.environ.get('VERIF_STALL_S', '60'))     # no output from the implementation for this long = HANG
+STALL_MODEL = 3000.0                                           # the model is total; only a budget for slow cases
+
+
+def _run_stream(binary, lines, stall):
+    """feed the lines to one process; return (complete output lines, status of the line it died or stalled on)"""
+    import select, threading
+    p = subprocess.Popen([binary] + (['run'] if binary == HBIN else []), stdin=subprocess.PIPE,
+                         stdout=subprocess.PIPE, stderr=subprocess.DEVNULL, preexec_fn=_big_stack)
+    data = ('\n'.join(lines) + '\n').encode()
+
+    def feed():
+        try:
+            p.stdin.write(data)
+            p.stdin.close()
+        except Exception:
+            pass
+    th = threading.Thread(target=feed, daemon=True)
+    th.start()
+    buf = b''
+    status = None
+    fd = p.stdout.fileno()
+    while True:
+        r, _, _ = select.select([fd], [], [], stall)
+        if not r:
+            status = 'HANG'
+            p.kill()
+            break
+        chunk = os.read(fd, 1 << 20)
+        if not chunk:
+            break
+        buf += chunk
+    p.wait()
+    out = buf.decode(errors='replace').split('\n')
+    out = out[:-1]          # the last element is an incomplete line (or empty)
+    if status is None and len(out) < len(lines):
+        status = 'CRASH rc=%d' % p.returncode
+    return out[:len(lines)], status
+
+
 def _run_shard(args):
     binary, lines = args
-    p = subprocess.run([binary] + (['run'] if binary == HBIN else []), input='\n'.join(lines) + '\n',
-                       stdout=subprocess.PIPE, stderr=subprocess.PIPE, text=True, timeout=3000, preexec_fn=_big_stack)
-    out = p.stdout.splitlines()
-    if len(out) != len(lines):
-        # a crash (abort / stack overflow) kills the whole shard: find the culprit line by line
-        out = []
-        for l in lines:
-            q = subprocess.run([binary] + (['run'] if binary == HBIN else []), input=l + '\n',
-                               stdout=subprocess.PIPE, stderr=subprocess.PIPE, text=True, timeout=600, preexec_fn=_big_stack)
-            o = q.stdout.splitlines()
-            out.append(o[0] if len(o) == 1 else 'CRASH rc=%d' % q.returncode)
+    out = []
+    if binary == HBIN:
+        # the harness prints one flushed line per case: whatever follows the last complete line is the culprit of
+        # a crash (abort / stack overflow) or of a stall (an implementation that no longer terminates)
+        pos = 0
+        while pos < len(lines):
+            got, status = _run_stream(binary, lines[pos:], STALL_IMPL)
+            out.extend(got)
+            pos += len(got)
+            if pos < len(lines):
+                out.append(status or 'CRASH')
+                pos += 1
+        return out
+    got, status = _run_stream(binary, lines, STALL_MODEL)
+    if len(got) == len(lines):
+        return got
+    # the model driver buffers its output: find the culprit line by line
+    for l in lines:
+        o, st = _run_stream(binary, [l], 600.0)
+        out.append(o[0] if len(o) == 1 else (st or 'CRASH'))
     return out
 
 
